@@ -10,11 +10,12 @@ from mirsym.models import val_eq
 
 class Determinism(PipelineBase):
     name='C13.determinism'
-    def __init__(self,nlinks=2,two_steps=False,all_valid=False,**kw):
-        PipelineBase.__init__(self,**kw); self.nlinks=nlinks; self.two_steps=two_steps; self.all_valid=all_valid
+    def __init__(self,nlinks=2,two_steps=False,all_valid=False,nsig=1,**kw):
+        PipelineBase.__init__(self,**kw); self.nlinks=nlinks; self.two_steps=two_steps; self.all_valid=all_valid; self.nsig=nsig
         if all_valid: self.name='C13.determinism_%dlinks_all_valid'%nlinks
+        if nsig>1: self.name='C13.determinism_%dlinks_%dsignatures_per_link'%(nlinks,nsig)
         self.bounds={'steps':2 if two_steps else 1,'links_per_step':nlinks,'threshold':'any u32','materials/products':'one path each, free digest byte per link (links may differ)',
-                     'signature_validity':'free per link','hash_map_iteration':'run 1 insertion order, run 2 every permutation (all maps)' if not all_valid else 'run 1 insertion order, run 2 every rotation and the reversal of every map (each entry is first and last in some order)','directory_enumeration':'glob returns sorted paths (as the glob crate documents); not varied'}
+                     'signature_validity':'free per link','signatures_per_link':'%d, all labelled with the link\'s key id'%nsig,'hash_map_iteration':'run 1 insertion order, run 2 every permutation (all maps)' if not all_valid else 'run 1 insertion order, run 2 every rotation and the reversal of every map (each entry is first and last in some order)','directory_enumeration':'glob returns sorted paths (as the glob crate documents); not varied'}
         self.witnesses=['both_ok','both_err']
     def setup(self,eng,tier):
         PipelineBase.setup(self,eng,tier)
@@ -41,7 +42,12 @@ class Determinism(PipelineBase):
                 mb=z3.BitVec('mb_%d_%d'%(si,i),8)
                 if first: run.add(z3.ULE(mb,n))
                 sd=SigD(i,i) if self.all_valid else SigD(i,mb,z3.Bool('in_%d_%d'%(si,i)),z3.Bool('ov_%d_%d'%(si,i)))
-                dirs[()].append(FileD(sname,i,BlockD('link',LinkD(sname,mats,prods),[sd])))
+                sds=[sd]
+                for j in range(1,self.nsig):      # further signatures under the SAME key id (a stale and a fresh one, say), each with free validity
+                    mbj=z3.BitVec('mb_%d_%d_%d'%(si,i,j),8)
+                    if first: run.add(z3.ULE(mbj,n))
+                    sds.append(SigD(i,mbj,z3.Bool('in_%d_%d_%d'%(si,i,j)),z3.Bool('ov_%d_%d_%d'%(si,i,j))))
+                dirs[()].append(FileD(sname,i,BlockD('link',LinkD(sname,mats,prods),sds)))
             steps.append(StepD(sname,thr,list(range(n))))
         lay=LayoutD(list(range(n)),steps)
         lb=BlockD('layout',lay,[SigD(OWN,OWN)]); caller=[(OWN,OWN)]
